@@ -19,7 +19,7 @@ def depslib_trusted():
             "Model/DepsReplay.guess is untrusted: acceptance re-runs Model/Deps.run on the guessed schedule"]
 
 
-def contention(ctx, parts=("contend", "generic", "names", "invalid", "custom", "verbose", "wide", "escaped"), rounds=None, knob_env=None):
+def contention(ctx, parts=("contend", "generic", "names", "invalid", "custom", "verbose", "wide", "escaped", "ambient"), rounds=None, knob_env=None):
     """C01 under contention: a lost update in the registry only shows when several goroutines miss
     the same fresh key at the same instant (oracle only; the theorem side is C01_at_most_once)."""
     if knob_env is None:
@@ -114,6 +114,10 @@ def _contention(ctx, parts, rounds, knob_env):
     if "wide" in parts and r.get("rerequest_after_many") and r["rerequest_after_many"] != [1, 1, 1, 1]:
         ctx.violation({"kind": "oracle", "oracle": "C01/C13", "clauses": ["dependencies that had finished were requested again after more than 10 000 other dependencies had been registered: executions now %s, must stay 1 each" % r["rerequest_after_many"]]},
                       case={"call": "mg.Deps(NmBuild, NmF1); mg.SerialDeps(NmBuildAll, VpEarly) after the wide calls"})
+    ctx.coverage["ambient_probe"] = r.get("ambient")
+    if "ambient" in parts and r.get("ambient"):
+        ctx.violation({"kind": "oracle", "oracle": "C01/C13/C14", "clauses": ["the working directory, the file system or the environment changed between two requests for one dependency: %s" % "; ".join(r["ambient"][:3])]},
+                      case={"call": "harness/depsrun/contend.go ambientProbe", "bad": r["ambient"]})
     ctx.coverage["crowd_probe"] = r.get("crowd")
     if "wide" in parts and r.get("crowd"):
         ctx.violation({"kind": "oracle", "oracle": "C02", "clauses": [r["crowd"]]}, case={"call": "harness/depsrun/contend.go crowdProbe"})
